@@ -399,16 +399,20 @@ func (w *World) RandomOp(o HistOpts) {
 			switch w.pick(6) {
 			case 0:
 				w.MintInit(s)
+			// (with the whole range of values governance itself uses, boundary values included: a check that is skipped
+			// or satisfied for one particular value shows only there)
 			case 1:
-				w.UpdateCyclelist(s, []string{"qeth"})
+				w.UpdateCyclelist(s, [][]string{{"qeth"}, {"qeth", "qbtc", "qtrb"}, {}, {"qsol"}}[w.pick(4)])
 			case 2:
-				w.UpdateOracleParams(s, 5)
+				w.UpdateOracleParams(s, []int64{5, 0, 1, 1_000_000, 2_000_000}[w.pick(5)])
 			case 3:
-				w.UpdateReporterParams(s, 1, 1)
+				w.UpdateReporterParams(s, uint64(w.pick(5)), []int64{1, 0, 1_000_000, 2_000_000}[w.pick(4)])
 			case 4:
-				w.UpdateSnapshotLimit(s, 1)
+				w.UpdateSnapshotLimit(s, []uint64{1, 0, 2, 5, 1000, 1 << 63}[w.pick(6)])
 			default:
-				w.UpdateDataSpec(s, "spotprice", registrytypes.GenesisDataSpec())
+				spec := registrytypes.GenesisDataSpec()
+				spec.ReportBlockWindow = uint64(w.pick(6))
+				w.UpdateDataSpec(s, []string{"spotprice", "trbbridge", "SpotPrice", ""}[w.pick(4)], spec)
 			}
 		}})
 	}
@@ -762,6 +766,19 @@ func (w *World) DisputeStory(o HistOpts) {
 	id := w.lastDisputeId()
 	if id == 0 {
 		return
+	}
+	// a reporter jailed for ten minutes by a fully funded minor dispute is disputed again, lightly, for its other report
+	// of that block: its jail term must not become shorter
+	if cat == disputetypes.Minor && !partial && len(w.Reports)-nrep0 > 1 && w.pick(2) == 0 {
+		for _, r2 := range w.Reports[nrep0:] {
+			if string(r2.QueryId) != string(rep.QueryId) {
+				r2 := r2
+				w.block(o, 3*sec, func() { w.ProposeDispute(w.user(), r2, disputetypes.Warning, int64(r2.Power)*10_000, false, "second-lighter") })
+				w.block(o, 3*sec, func() { w.Unjail(r) }, func() { w.Submit(r, w.currentCycleQuery(), hex32(1000)) })
+				break
+			}
+		}
+		id = w.lastDisputeId()
 	}
 	if partial {
 		branch := w.pick(3)
